@@ -1,9 +1,13 @@
-(* Properties/C15.v — Unanswered queries are retried and end within the query lifetime
-   (partial: the part that is logic; executor fairness and OS timers are outside any model).
-   For the blocking client every blocking call is preceded by arming a socket timeout computed by
-   lifetime_left / query_left / tcp_read_exact_until; durations are abstract numbers. *)
-From RsdnsModel Require Import Base Client.
-From RsdnsModel.Proofs Require Import ClientProofs.
+(* Properties/C15.v — Unanswered queries are retried and end within the query lifetime.
+   Part 1 (below): the time arithmetic of the blocking client, leaf by leaf — every blocking call is
+   preceded by arming a socket timeout computed by lifetime_left / query_left / tcp_read_exact_until.
+   Part 2: the clients as machines over time (Timed.v) for every queue of arrivals and every TCP
+   peer: refinement of the retry specification Spec/Retry.v with exact timers, the spacing of the
+   transmissions and the deadline of the whole call with timers that fire up to eps late.  OS
+   timers, executor fairness and CPU time are the world, not the model (DESIGN.md 8, 12.2). *)
+From RsdnsModel Require Import Base Client Timed.
+From RsdnsModel.Spec Require Import Retry.
+From RsdnsModel.Proofs Require Import ClientProofs TimedProofs.
 Open Scope N_scope.
 (* every armed timeout is positive (a zero timeout is an error of set_read_timeout) and expires
    no later than the query lifetime; the UDP one also no later than the current attempt *)
@@ -41,3 +45,92 @@ Proof. exact armed_before_call_deadline. Qed.
 Theorem C15_async_durations_are_configured : forall smol cfg_lifetime cfg_qt,
   async_call_duration smol cfg_lifetime cfg_qt = cfg_lifetime /\ async_attempt_duration smol cfg_lifetime cfg_qt = cfg_qt.
 Proof. exact async_durations_are_configured. Qed.
+
+(* ================================================================ Part 2: the clients over time *)
+(* REFINEMENT, exact timers.  For each of the four clients ([std]: blocking / async template;
+   [smol]: which runtime's timeout combinator), every query (id, name, type, class, start), every
+   lifetime > 0 and query timeout > 0 (or none), and EVERY queue of arrivals in delivery order —
+   answers, late answers to earlier queries, junk, before, between and after the transmissions —
+   the UDP exchange makes exactly the transmissions, returns exactly the result at exactly the
+   instant Spec/Retry.v prescribes: transmissions at start, start + qt, start + 2 qt, ... while no
+   answering datagram has arrived and start + lifetime has not been reached; the first datagram
+   that answers the query (the filter of C12) is the result, at the instant it arrives; otherwise
+   Timeout at start + lifetime.  What is left in the queue is a suffix of what was found. *)
+Theorem C15_exchange_refines_spec : forall std smol q lifetime qt queue lo,
+  qt_pos qt -> 0 < lifetime -> sorted_from lo queue ->
+  exists rest, exchange_of std smol q lifetime qt zero_jit queue =
+    (outcome_of (spec_udp (good_of std q) (exchange_fuel lifetime) (tq_start q) lifetime qt queue), rest) /\
+    exists pre, queue = pre ++ rest.
+Proof. exact exchange_refines_spec. Qed.
+
+(* the schedule of the specification in closed form: the k-th transmission is at s + k q, and every
+   s + k q below the bound (the answer's arrival, or start + lifetime) is a transmission *)
+Theorem C15_schedule_nth : forall q bound fuel s k x,
+  nth_error (schedule fuel s q bound) k = Some x -> x = s + N.of_nat k * q /\ (k = 0%nat \/ x < bound).
+Proof. exact schedule_nth. Qed.
+Theorem C15_schedule_complete : forall q bound, 0 < q -> forall fuel s k,
+  (N.to_nat (bound - s) < fuel)%nat -> s + N.of_nat k * q < bound ->
+  nth_error (schedule fuel s q bound) k = Some (s + N.of_nat k * q).
+Proof. exact schedule_complete. Qed.
+
+(* datagrams that do not answer the query neither abort it nor stop or shift the retries: the
+   specification sees the queue only through its first answering datagram, so deleting every other
+   datagram (or inserting any) changes neither transmissions nor result nor duration *)
+Theorem C15_only_answers_matter : forall good fuel start lifetime qt arrs,
+  spec_udp good fuel start lifetime qt (filter (answers good) arrs) = spec_udp good fuel start lifetime qt arrs.
+Proof. exact spec_udp_filter. Qed.
+
+(* the blocking client, which re-computes relative socket timeouts from clock readings, and the
+   async clients, which run under two absolute timers, are the same machine (exact timers) *)
+Theorem C15_std_is_async : forall good acc, (forall d, acc d = Ok (good d)) ->
+  forall start lifetime qt smol fuel arrs now,
+  qt_pos qt -> start <= now -> now < start + lifetime -> (N.to_nat (start + lifetime - now) < fuel)%nat ->
+  std_udp_exchange acc start lifetime qt (fun _ => 0) fuel arrs now =
+  async_udp_exchange acc start lifetime qt (fun _ => 0) smol fuel arrs now.
+Proof. exact std_is_async_exact. Qed.
+
+(* TIMERS THAT FIRE LATE (each by at most eps; arrivals in any order).  The first transmission is at
+   the start of the call; consecutive transmissions are at least one query timeout and at most one
+   query timeout plus eps apart, all earlier than start + lifetime ([gaps]); the exchange ends with
+   a datagram the filter accepts or with Timeout, no later than start + lifetime + eps; and Timeout
+   is reported only if the last transmission was within one query timeout (+ eps) of the end of the
+   lifetime: the retries are never given up early. *)
+Theorem C15_retries_with_slack : forall std smol q lifetime qt jit eps queue s r t rest,
+  (forall x, jit x <= eps) -> qt_pos qt -> 0 < lifetime ->
+  exchange_of std smol q lifetime qt jit queue = (s, r, t, rest) ->
+  tq_start q <= t /\ t <= tq_start q + lifetime + eps /\
+  match r with Ok (d, fl) => good_of std q d = Some fl | Err e => e = Timeout | _ => False end /\
+  (exists s', s = tq_start q :: s' /\ gaps (tq_start q) lifetime qt eps (tq_start q) s') /\
+  Forall (fun x => tq_start q <= x /\ x <= t) s /\
+  (r = Err Timeout -> tq_start q + lifetime <= last s (tq_start q) + tmo lifetime qt + eps).
+Proof. exact exchange_with_slack. Qed.
+
+(* THE WHOLE CALL: whatever arrives over UDP and whatever the TCP peer does — accepts late or never,
+   sends its reply byte by byte, stalls after any byte, closes early —, under every strategy, the
+   call returns a value or an error no later than start + lifetime + eps *)
+Theorem C15_call_ends_by_deadline : forall std smol q lifetime qt jit eps buf_len strategy arrs srv sends ev r t,
+  (forall x, jit x <= eps) -> qt_pos qt -> 0 < lifetime ->
+  client_query_timed std smol q lifetime qt jit buf_len strategy arrs srv = (sends, ev, r, t) ->
+  tq_start q <= t /\ t <= tq_start q + lifetime + eps /\ match r with Ok _ | Err _ => True | _ => False end.
+Proof. exact client_query_deadline. Qed.
+
+(* a concrete run (query "a." A IN, id 0x1234, start 1000, lifetime 1050, query timeout 300): junk at
+   1010, a response with another id at 1290, a response to another question at 1610, nothing else:
+   four transmissions, Timeout at 2050 — for the blocking and the async machine alike; and with the
+   genuine response arriving at 1650: three transmissions and that response at 1650 *)
+Definition ex_q : tquery := {| tq_id := 4660; tq_name := ["a"%byte; "."%byte]; tq_type := 1; tq_class := 1; tq_start := 1000 |}.
+Definition ex_resp (id_hi id_lo name : byte) : list byte :=
+  [id_hi; id_lo; x81; x80; x00; x01; x00; x00; x00; x00; x00; x00; x01; name; x00; x00; x01; x00; x01]%byte.
+Definition ex_junk : list arrival :=
+  [(1010, [x00; x01; x02]%byte); (1290, ex_resp x12 x35 "a"); (1610, ex_resp x12 x34 "b")].
+Example C15_example :
+  (forall std, fst (exchange_of std false ex_q 1050 (Some 300) zero_jit ex_junk) = ([1000; 1300; 1600; 1900], Err Timeout, 2050)) /\
+  (forall std, fst (exchange_of std false ex_q 1050 (Some 300) zero_jit (ex_junk ++ [(1650, ex_resp x12 x34 "A")]))
+     = ([1000; 1300; 1600], Ok (ex_resp x12 x34 "A", 33152), 1650)) /\
+  (forall std, fst (exchange_of std false ex_q 1050 None zero_jit ex_junk) = ([1000], Err Timeout, 2050)) /\
+  sorted_from 0 (ex_junk ++ [(1650, ex_resp x12 x34 "A")]) /\ qt_pos (Some 300).
+Proof.
+  split; [|split; [|split; [|split]]]; try (intros [|]; vm_compute; reflexivity).
+  - cbn. lia.
+  - reflexivity.
+Qed.
